@@ -116,7 +116,9 @@ def generate(seed, run, tier):
     fault_rate = crng.choice([0.02, 0.05, 0.1, 0.15]) if enabled else 0.0
     str_ok = all(isinstance(t, str) and len(t) == 1 for t in alphabet)
     bytes_ok = any(isinstance(t, int) and not isinstance(t, bool) and 0 <= t < 256 for t in alphabet)
-    forms = ["list", "tuple", "gen"] + (["str"] if str_ok else []) + (["bytes"] if bytes_ok else [])
+    # "reuse": one list object owned by the caller, refilled and passed again and
+    # again (path.append(tok); trie[path] = v in a loop)
+    forms = ["list", "tuple", "gen", "reuse"] + (["str"] if str_ok else []) + (["bytes"] if bytes_ok else [])
     forms = [f for f in forms if crng.random() < 0.7] or ["list"]
     # observation schedule (swarm): a full sweep after every mutation would
     # always be the first traversal after a write and could mask state kept
@@ -308,6 +310,7 @@ class Run(object):
         # one-shot (generator) keys are beyond "str / list / tuple keys": an
         # implementation that wants real sequences may reject them with TypeError;
         # from then on the run passes lists instead
+        self.buf = []  # the caller's reusable key buffer
         self.gen_ok = True
         self.bytes_ok = True  # likewise for bytes keys (sequences of small integers)
         self.universe = query_universe([dec_token(t) for t in config["alphabet"]], config["depth"])
@@ -344,6 +347,10 @@ class Run(object):
             form = "list"
         if form == "bytes" and not self.bytes_ok:
             form = "list"
+        if form == "reuse":
+            self.buf[:] = list(key)
+            self.stats.probe("same_list_object_passed_again")
+            return fn(self.buf)
         if form not in ("gen", "bytes"):
             return fn(make_key(key, form))
         try:
@@ -439,16 +446,16 @@ class Run(object):
         if iter_first:
             for kind in ITER_KINDS:
                 self.judge_iteration(kind, bounded(self.open_iter(kind), len(self.model)), op)
-        forms = ("list", "tuple", "gen")
+        forms = ("list", "tuple", "gen", "reuse")
         n = 0
         for key in self.universe:
             n += 1
             if n % stride != off:
                 continue
-            form = forms[n % 3]
+            form = forms[n % 4]
             self.q_get(key, form, op)
-            self.q_getitem(key, forms[(n + 1) % 3], op)
-            self.q_lmpv(key, forms[(n + 2) % 3], op)
+            self.q_getitem(key, forms[(n + 1) % 4], op)
+            self.q_lmpv(key, forms[(n + 2) % 4], op)
         self.q_len(op)
         if do_iter:
             for kind in ITER_KINDS:
@@ -505,7 +512,7 @@ class Run(object):
             stats.probe(ev["form"] + "_form")
             def assign(passed):
                 self.trie[passed] = value
-                if isinstance(passed, list):
+                if isinstance(passed, list) and passed is not self.buf:
                     # the key object stays the caller's: reusing or changing it after
                     # the call must not reach into the container
                     passed[:] = ["caller", "reuses", "its", "list"]
@@ -779,6 +786,7 @@ PROBES = [
     "tuple_form",
     "gen_form",
     "keyerror",
+    "same_list_object_passed_again",
     "lmpv_strict_prefix_hit",
     "lmpv_longest_is_none",
     "iterators_interleaved",
